@@ -553,6 +553,53 @@ func flushLifecycleRules(c *eng.Ctx) {
 				}
 			}
 		})
+		// F17: an immutable store that flush declines to write is never produced by the swap
+		c.Rule("TYPESTATE", s.t+"{swapped store is always drained}", func() {
+			pf := c.Fn(s.t + "." + s.prep)
+			f := c.Fn(s.t + "." + s.flush)
+			clr := p.Sites(f, eng.StoreField(s.t+".immutable"))
+			// exits of flush that report success although the immutable store was not dropped, taken after its emptiness was consulted
+			empt := p.Sites(f, invokeOnGeneric(".immutable", "IsEmpty"))
+			var kept ssa.Instruction
+			for _, e := range empt {
+				if w, ok := eng.PathExists(eng.PathQuery{Fn: f, After: e.Instr,
+					Target:  func(in ssa.Instruction) bool { return in.Parent() == f && instrIsSuccessReturn(f, in) },
+					Blocked: func(in ssa.Instruction) bool { return instrIn(in, clr) }}); ok {
+					kept = w
+				}
+			}
+			// the other sound design: flush itself drops a store it found empty (some IsEmpty()==true edge leads to the clearing store on
+			// every path to a successful return)
+			for _, e := range empt {
+				te, _ := eng.BoolCheckEdges(f, e.Instr.(ssa.Value))
+				for _, ed := range te {
+					first := ed.B.Succs[ed.Succ].Instrs[0]
+					if instrIn(first, clr) {
+						kept = nil
+						continue
+					}
+					if _, leak := eng.PathExists(eng.PathQuery{Fn: f, After: first,
+						Target:  func(in ssa.Instruction) bool { return in.Parent() == f && instrIsSuccessReturn(f, in) },
+						Blocked: func(in ssa.Instruction) bool { return instrIn(in, clr) }}); !leak {
+						kept = nil
+					}
+				}
+			}
+			if kept == nil {
+				c.Check(true, "empty-store-dropped-or-never-made", nil, f, "flush drops every immutable store it is given (an empty one included), or never skips one because it is empty", "")
+				return
+			}
+			facts := p.MustFacts(pf)
+			im := c.One(pf, eng.StoreField(s.t+".immutable"), "immutable = mutable")
+			fs := facts.At(im.Instr)
+			nonEmpty := facts.Find(fs, "false", func(d string, v ssa.Value) bool {
+				return strings.Contains(d, ".mutable") && strings.Contains(d, "IsEmpty(")
+			}, nil)
+			c.Check(len(nonEmpty) > 0, "empty-store-dropped-or-never-made", im.Instr, pf,
+				"flush skips an EMPTY immutable store and leaves it in place (success exit at "+p.InstrPos(kept)+" without `immutable = nil`), and the next swap requires immutable == nil: "+
+					"so the swap must not install an empty store — otherwise, after one flush round with nothing new, the store never swaps again and nothing created later is ever persisted",
+				"the swap is not guarded by !mutable.IsEmpty(); facts at the swap: "+strings.Join(facts.Render(fs), " ; "))
+		})
 		c.Rule("ORDER", s.t+"."+s.flush+"{commit<clear}", func() {
 			f := c.Fn(s.t + "." + s.flush)
 			ls := p.Locks(f, nil)
@@ -570,7 +617,14 @@ func flushLifecycleRules(c *eng.Ctx) {
 			clr := c.Some(f, eng.StoreField(s.t+".immutable"), "immutable = nil")
 			for i, x := range clr {
 				ok, why := eng.OkDominates(f, commit[0].Instr, x.Instr)
-				c.Check(ok, fmt.Sprintf("clear-only-after-commit[%d]", i), x.Instr, f, "the immutable store is dropped only after the flusher committed successfully (a failed flush keeps it for retry and for readers)", why)
+				if !ok {
+					// dropping a store that was just found EMPTY loses nothing
+					ff := p.MustFacts(f)
+					if len(ff.Find(ff.At(x.Instr), "true", func(d string, _ ssa.Value) bool { return strings.Contains(d, ".immutable") && strings.Contains(d, "IsEmpty(") }, nil)) > 0 {
+						ok = true
+					}
+				}
+				c.Check(ok, fmt.Sprintf("clear-only-after-commit[%d]", i), x.Instr, f, "the immutable store is dropped only after the flusher committed successfully (a failed flush keeps it for retry and for readers), or when it was found empty", why)
 				c.Check(ls.At(x.Instr).HasField(s.mu, true), fmt.Sprintf("clear-locked[%d]", i), x.Instr, f, "the immutable store is dropped under the write lock", "held: "+ls.At(x.Instr).String())
 			}
 			// what is flushed is the immutable store
